@@ -70,28 +70,31 @@ Record handle := mkHandle { halive : bool; hpool : nat; hvt : vtype }.
 Record state := mkState {
   pools : nat -> pool;     npools : nat;
   handles : nat -> handle; nhandles : nat;
-  blocks : nat -> block;   nblocks : nat
+  blocks : nat -> block;   nblocks : nat;
+  cached : nat -> nat      (* per pool: MemPool::mCachedCount, freed blocks parked in the pool's cache *)
 }.
 
 Definition dead_pool : pool := mkPool (0, 0) 0 0 0 false.
 Definition dead_handle : handle := mkHandle false 0 (mkVt 0 0).
 Definition dead_block : block := mkBlock false 0 (mkVt 0 0) 0 (RawMem 0).
-Definition init : state := mkState (fun _ => dead_pool) 0 (fun _ => dead_handle) 0 (fun _ => dead_block) 0.
+Definition init : state := mkState (fun _ => dead_pool) 0 (fun _ => dead_handle) 0 (fun _ => dead_block) 0 (fun _ => O).
 
 Definition updn {A} (f : nat -> A) (i : nat) (v : A) : nat -> A := fun j => if Nat.eqb j i then v else f j.
 
 Definition set_pool (st : state) (p : nat) (x : pool) : state :=
-  mkState (updn (pools st) p x) (npools st) (handles st) (nhandles st) (blocks st) (nblocks st).
+  mkState (updn (pools st) p x) (npools st) (handles st) (nhandles st) (blocks st) (nblocks st) (cached st).
 Definition set_handle (st : state) (h : nat) (x : handle) : state :=
-  mkState (pools st) (npools st) (updn (handles st) h x) (nhandles st) (blocks st) (nblocks st).
+  mkState (pools st) (npools st) (updn (handles st) h x) (nhandles st) (blocks st) (nblocks st) (cached st).
 Definition set_block (st : state) (b : nat) (x : block) : state :=
-  mkState (pools st) (npools st) (handles st) (nhandles st) (updn (blocks st) b x) (nblocks st).
+  mkState (pools st) (npools st) (handles st) (nhandles st) (updn (blocks st) b x) (nblocks st) (cached st).
+Definition set_cached (st : state) (p : nat) (c : nat) : state :=
+  mkState (pools st) (npools st) (handles st) (nhandles st) (blocks st) (nblocks st) (updn (cached st) p c).
 Definition push_pool (st : state) (x : pool) : state :=
-  mkState (updn (pools st) (npools st) x) (S (npools st)) (handles st) (nhandles st) (blocks st) (nblocks st).
+  mkState (updn (pools st) (npools st) x) (S (npools st)) (handles st) (nhandles st) (blocks st) (nblocks st) (cached st).
 Definition push_handle (st : state) (x : handle) : state :=
-  mkState (pools st) (npools st) (updn (handles st) (nhandles st) x) (S (nhandles st)) (blocks st) (nblocks st).
+  mkState (pools st) (npools st) (updn (handles st) (nhandles st) x) (S (nhandles st)) (blocks st) (nblocks st) (cached st).
 Definition push_block (st : state) (x : block) : state :=
-  mkState (pools st) (npools st) (handles st) (nhandles st) (updn (blocks st) (nblocks st) x) (S (nblocks st)).
+  mkState (pools st) (npools st) (handles st) (nhandles st) (updn (blocks st) (nblocks st) x) (S (nblocks st)) (cached st).
 
 (* what one operation did, as observable from outside *)
 Record obs := mkObs {
@@ -106,12 +109,17 @@ Record obs := mkObs {
 Inductive op :=
 | OpNew (vt : vtype)                                 (* explicit ctor from a base allocator, 76-79 *)
 | OpCopy (h : nat)                                   (* copy ctor, 81-84 *)
+| OpMove (h : nat)                                   (* construction from an rvalue allocator: NO move constructor is
+                                                        declared (the user-declared copy operations suppress it), so this
+                                                        selects the copy constructor: source keeps its pool *)
 | OpRebind (h : nat) (vt : vtype)                    (* conversion to another value type, 94-99 *)
 | OpSocc (h : nat)                                   (* select_on_container_copy_construction, 106-109 *)
 | OpAssign (hd hs : nat)                             (* operator=, 88-92 *)
 | OpDestroy (h : nat)                                (* ~unsynchronized_pool_allocator, 86 *)
 | OpAlloc (h : nat) (n : Z) (grow : nat)             (* allocate, 111-127 *)
-| OpDealloc (h : nat) (b : nat) (n : Z) (shrink : nat). (* deallocate, 129-134 *)
+| OpDealloc (h : nat) (b : nat) (n : Z) (shrink : nat) (* deallocate, 129-134 *)
+| OpAllocFail (h : nat) (n : Z) (grow : nat).        (* allocate in which the base allocator throws after the pool
+                                                        obtained [grow] buffers *)
 
 (* shared_ptr release: the last owner destroys the MemPool.  ~MemPool (MemPool.h:228-235) has
    MOMO_EXTRA_CHECK(allocCount == 0) and then returns every buffer; the control block obtained by
@@ -130,6 +138,12 @@ Definition acquire (st : state) (p : nat) : state :=
   let P := pools st p in
   set_pool st p (mkPool (pparams P) (pcount P) (S (prefs P)) (pheld P) (palive P)).
 
+(* MemPoolParams<>::cachedFreeBlockCount = MOMO_DEFAULT_MEM_POOL_CACHED_FREE_BLOCK_COUNT; pvUseCache (MemPool.h:455-458) *)
+Definition cached_free_block_count : nat := 16.
+Definition use_cache (P : pool) : bool := (8 <=? fst (pparams P))%Z.
+(* MemPool::Allocate (281-303) takes a parked block, without touching the base allocator, when the cache is not empty *)
+Definition from_cache (st : state) (p : nat) : bool := use_cache (pools st p) && negb (Nat.eqb (cached st p) 0).
+
 Definition new_pool (vt : vtype) : pool := mkPool (get_params vt) 0 1 0 true.
 
 Definition step (st : state) (o : op) : outcome (state * obs) :=
@@ -140,6 +154,10 @@ Definition step (st : state) (o : op) : outcome (state * obs) :=
       Ok (push_handle (push_pool st (new_pool vt)) (mkHandle true p vt),
           mkObs None None p 1 0 false)
   | OpCopy h =>
+      let H := handles st h in
+      Ok (push_handle (acquire st (hpool H)) (mkHandle true (hpool H) (hvt H)),
+          mkObs None None (hpool H) 0 0 false)
+  | OpMove h =>
       let H := handles st h in
       Ok (push_handle (acquire st (hpool H)) (mkHandle true (hpool H) (hvt H)),
           mkObs None None (hpool H) 0 0 false)
@@ -183,13 +201,17 @@ Definition step (st : state) (o : op) : outcome (state * obs) :=
         if negb equal && Nat.eqb (pcount P) 0 then            (* 117 *)
           (* 119: *mMemPool = MemPool(mp, ...): the old (idle) MemPool is destroyed and returns its
              buffers; 123: Allocate from the new one *)
+          (* the parked blocks of the old parameter set die with the old MemPool: the new one starts with an
+             empty cache *)
           let P' := mkPool mp 1 (prefs P) grow (palive P) in
-          Ok (push_block (set_pool st p P') (mkBlock true p (hvt H) n (Pooled mp)),
+          Ok (set_cached (push_block (set_pool st p P') (mkBlock true p (hvt H) n (Pooled mp))) p 0,
               mkObs (Some (Pooled mp)) None p grow (pheld P) true)
         else if equal then                                    (* 122-123 *)
-          let P' := mkPool (pparams P) (S (pcount P)) (prefs P) (pheld P + grow) (palive P) in
-          Ok (push_block (set_pool st p P') (mkBlock true p (hvt H) n (Pooled (pparams P))),
-              mkObs (Some (Pooled (pparams P))) None p grow 0 false)
+          let g := if from_cache st p then O else grow in     (* MemPool.h:284-289 vs 291-299 *)
+          let c := if from_cache st p then pred (cached st p) else cached st p in
+          let P' := mkPool (pparams P) (S (pcount P)) (prefs P) (pheld P + g) (palive P) in
+          Ok (set_cached (push_block (set_pool st p P') (mkBlock true p (hvt H) n (Pooled (pparams P)))) p c,
+              mkObs (Some (Pooled (pparams P))) None p g 0 false)
         else raw
       else raw
   | OpDealloc h b n shrink =>
@@ -204,13 +226,39 @@ Definition step (st : state) (o : op) : outcome (state * obs) :=
         match pcount P with
         | O => Stuck
         | S c =>
-            let fr := Nat.min shrink (pheld P) in
+            (* MemPool.h:305-323: with a cache the block is parked; a full cache (16) is flushed first; only a
+               flush, or the cache-less path, hands blocks back to buffers and may release a buffer *)
+            let flush := Nat.leb cached_free_block_count (cached st p) in
+            let fr := if use_cache P && negb flush then O else Nat.min shrink (pheld P) in
+            let k := if use_cache P then S (if flush then O else cached st p) else cached st p in
             let P' := mkPool (pparams P) c (prefs P) (pheld P - fr) (palive P) in
-            Ok (set_block (set_pool st p P') b dead, mkObs (Some (Pooled (pparams P))) orig p 0 fr false)
+            Ok (set_cached (set_block (set_pool st p P') b dead) p k,
+                mkObs (Some (Pooled (pparams P))) orig p 0 fr false)
         end
       else
         (* 133: MemManagerProxy::Deallocate(memManager, ptr, count * sizeof(value_type)) *)
         Ok (set_block st b dead, mkObs (Some (RawMem (n * vsize (hvt H)))) orig p 0 1 false)
+  | OpAllocFail h n grow =>
+      (* the base allocator throws inside allocate(): no block is handed out.  Raw path: nothing happened.
+         Pool path: MemPool::Allocate increments allocCount only after the block exists (line 300), so the
+         count is unchanged, but buffers obtained before the throw stay with the pool; and line 119 has
+         ALREADY replaced an idle pool of other parameters by a fresh one (old buffers and cache gone). *)
+      let H := handles st h in
+      let p := hpool H in
+      let P := pools st p in
+      let nothing := Ok (st, mkObs None None p 0 0 false) in
+      if n =? 1 then
+        let mp := get_params (hvt H) in
+        let equal := params_eqb mp (pparams P) in
+        if negb equal && Nat.eqb (pcount P) 0 then
+          Ok (set_cached (set_pool st p (mkPool mp 0 (prefs P) grow (palive P))) p 0,
+              mkObs None None p grow (pheld P) true)
+        else if equal then
+          if from_cache st p then Stuck      (* no base allocation on this path: it cannot fail *)
+          else Ok (set_pool st p (mkPool (pparams P) (pcount P) (prefs P) (pheld P + grow) (palive P)),
+                   mkObs None None p grow 0 false)
+        else nothing
+      else nothing
   end.
 
 Fixpoint run (st : state) (ops : list op) : outcome (state * list obs) :=
@@ -249,6 +297,7 @@ Definition proto_ok (st : state) (o : op) : bool :=
   match o with
   | OpNew vt => true
   | OpCopy h => handle_ok st h
+  | OpMove h => handle_ok st h
   | OpRebind h vt => handle_ok st h
   | OpSocc h => handle_ok st h
   | OpAssign hd hs =>
@@ -266,6 +315,11 @@ Definition proto_ok (st : state) (o : op) : bool :=
       let B := blocks st b in
       handle_ok st h && Nat.ltb b (nblocks st) && balive B &&
       Nat.eqb (bpool B) (hpool (handles st h)) && vt_eqb (bvt B) (hvt (handles st h)) && (bn B =? n)
+  | OpAllocFail h n grow =>
+      (* a failure needs a base allocation: not the take-from-cache path *)
+      handle_ok st h && (1 <=? n) &&
+      negb ((n =? 1) && params_eqb (get_params (hvt (handles st h))) (pparams (pools st (hpool (handles st h)))) &&
+            from_cache st (hpool (handles st h)))
   end.
 
 (* Hypothesis H, as a monitor: a single-object request made while a pooled block of the same pool is
@@ -309,6 +363,6 @@ Definition outstanding (st : state) : nat :=
   (sumn (npools st) (fun p => pool_out (pools st p)) + sumn (nblocks st) (fun b => raw_out (blocks st b)))%nat.
 
 (* std::swap(a, b) on two allocators of the same type (no move operations are declared, so copies):
-   Alloc tmp(a); a = b; b = tmp; ~tmp *)
+   Alloc tmp(std::move(a)); a = std::move(b); b = std::move(tmp); ~tmp *)
 Definition swap_ops (st : state) (h1 h2 : nat) : list op :=
-  [OpCopy h1; OpAssign h1 h2; OpAssign h2 (nhandles st); OpDestroy (nhandles st)].
+  [OpMove h1; OpAssign h1 h2; OpAssign h2 (nhandles st); OpDestroy (nhandles st)].
